@@ -44,6 +44,7 @@ inductive Err
   | badCast         -- TypeSystemError::UnexpectedDataType
   | overflowPanic   -- arithmetic-overflow panic (only reachable with a defect flag on)
   | slicePanic      -- slice-length panic (only reachable with a defect flag on)
+  | nullKey         -- `CellComparator`: "Cannot compare null keys" (an unordered pair of key values)
   deriving Repr, DecidableEq
 
 instance {ε α : Type} [DecidableEq ε] [DecidableEq α] : DecidableEq (Except ε α)
@@ -59,6 +60,7 @@ def Err.name : Err → String
   | .badCast => "cast"
   | .overflowPanic => "overflow-panic"
   | .slicePanic => "slice-panic"
+  | .nullKey => "nullkey"
 
 /-! ## VarInt: zig-zag + little-endian base-128 (types/varint.rs) -/
 namespace VarInt
@@ -598,5 +600,43 @@ def sortCmp (D : Defects) (a b : Value) : Ordering :=
   | .null, _ => .lt
   | _, .null => .gt
   | a, b => (partialCmp D a b).getD .eq
+
+/-! ## Key comparison in the B+tree (tree/cell_ops.rs `CellComparator::compare_keys`) -/
+
+/-- The bytes `TupleBuilder::write_initial` produces for a list of key values when the first one is written at
+    `cursor`: each value at the next multiple of its alignment (zero padding in between), one after the other. -/
+def layoutKeys (cursor : Nat) : List Value → Bytes
+  | [] => []
+  | v :: vs =>
+    match serialize v with
+    | .ok bs =>
+      let at_ := alignUp cursor v.kind.align
+      List.replicate (at_ - cursor) 0 ++ bs ++ layoutKeys (at_ + bs.length) vs
+    | .error _ => []
+
+/-- `compare_keys`: walk the key columns, deserializing the search key from `target` at `tcur` and the stored key from
+    `cell` at `ccur`, and compare them as `DataTypeRef`s; the first non-equal column decides. -/
+def compareKeys (D : Defects) : List Kind → Bytes → Nat → Bytes → Nat → Except Err Ordering
+  | [], _, _, _, _ => .ok .eq
+  | k :: ks, target, tcur, cell, ccur =>
+    match deserialize D k target tcur with
+    | .error e => .error e
+    | .ok (tv, tnext) =>
+      match deserialize D k cell ccur with
+      | .error e => .error e
+      | .ok (cv, cnext) =>
+        match partialCmp D tv cv with
+        | some .eq => compareKeys D ks target tnext cell cnext
+        | some o => .ok o
+        | none => .error .nullKey
+
+/-- the order on key tuples that the index is meant to have: column by column by value -/
+def lexValues (D : Defects) : List Value → List Value → Option Ordering
+  | [], [] => some .eq
+  | t :: ts, c :: cs =>
+    match partialCmp D t c with
+    | some .eq => lexValues D ts cs
+    | o => o
+  | _, _ => none
 
 end AxVerif.Value
